@@ -72,15 +72,26 @@ fn catalogue() -> Vec<Smooth> {
 pub fn run(run: &Run) {
     run.rule("interval lattice (10 end-points, a>b and a=b included) × trapz panel counts 1..=64,100,1000,4096 × affine integrands; romberg level budgets 2..=12 (20 thorough) at eps=0 × every monomial of degree 0..=2k-1; quad5 × monomials 0..=19; linearity and limit-swap on all interval pairs; 20 analytic integrands for the error bounds; sampled rule on every increasing abscissa set of length 2..=6 from {0,1,2,3,5,8} × ordinates over {-2..2}; non-trivial = a != b");
     let mut intervals = Vec::new();
-    for &a in &ENDS {
-        for &b in &ENDS {
+    let mut ends: Vec<f64> = ENDS.to_vec();
+    if run.thorough() {
+        // a denser end-point lattice: 34 values in ±1000
+        ends.extend([-999.5, -512.0, -100.0, -31.4, -10.0, -3.0, -2.5, -1.0, -0.75, -0.1, -1e-3, 1e-6, 1e-3, 0.1, 0.3, 0.75, 1.5, 2.5, 3.0, 10.0, 31.4, 100.0, 512.0, 999.5]);
+        ends.sort_by(|p, q| p.partial_cmp(q).unwrap());
+        ends.dedup();
+    }
+    for &a in &ends {
+        for &b in &ends {
             intervals.push((a, b));
         }
     }
-    run.bound("intervals", "10x10 end-point lattice in ±1000");
+    run.bound("intervals", format!("{0}x{0} end-point lattice in ±1000", ends.len()));
     // ---- trapz: exact for affine, every panel count --------------------------------------
     let mut ns: Vec<usize> = (1..=64).collect();
     ns.extend([100, 1000, 4096]);
+    if run.thorough() {
+        ns.extend(65..=260);
+        ns.extend([511, 512, 513, 1023, 1024, 1025, 2047, 2048, 2049, 4095]);
+    }
     intervals.par_iter().for_each(|&(a, b)| {
         for &n in &ns {
             for c0 in -2..=2 {
@@ -129,7 +140,7 @@ pub fn run(run: &Run) {
         }
     });
     run.sample(|| "trapz(1 + x, a=0, b=1, n=4) = 1.5; quad5(x^9, -3, 7); romberg(x^5, -1, 2, eps=0, nmax=3)".to_string());
-    run.bound("trapz panels", "1..=64, 100, 1000, 4096");
+    run.bound("trapz panels", if run.thorough() { "1..=260, 511..513, 1000, 1023..1025, 2047..2049, 4095, 4096" } else { "1..=64, 100, 1000, 4096" });
     run.bound("romberg levels", if run.thorough() { "1..=20, all monomials < 2k" } else { "1..=12, all monomials < 2k" });
 
     // ---- linearity and limit swap ----------------------------------------------------------
